@@ -13,9 +13,9 @@ P = {
          "on every generated document with >= 1 ready element nothing of a ready element survived, at every nesting class observed (ready in pending / skip / unregistered / ready / unwrapped parents)"),
  "C04": ("5 C04", "reference-model monitor: byte-for-byte identity on documents in which the reference evaluation finds no ready element, at the library and through the real binary (subprocess)",
          "clean(x) == x byte-for-byte on every generated document without a ready element (pending, skip, unregistered, malformed, unclosed, un-unwrappable, junk); the same through the CLI on file/stdin/--output routes incl. BOM, CRLF, missing final line break"),
- "C05": ("5 C05", "reference-model monitor with an independent civil-date implementation; direct evaluator calls, probe documents through clean, Decision hook events, monotone histories",
+ "C05": ("5 C05", "reference-model monitor with an independent civil-date implementation; direct evaluator calls, probe documents through clean, Decision hook events, monotone histories, sub-second boundary probes through the real binary",
          "observed decision == (now >= to at the offset) on the second-resolution grid around now / calendar boundaries x offsets -12:00..+14:00 in 15-min steps in both spellings; enumerated malformed values / garbage offsets never ready; removed set grows with time"),
- "C06": ("5 C06", "reference-model monitor: exact set membership + bare-skip rule; evaluator calls, probe documents (all attribute orders), Decision events, the real binary without target option",
+ "C06": ("5 C06", "reference-model monitor: exact set membership + bare-skip rule; evaluator calls, probe documents (all attribute orders), Decision events, the real binary without target option and with whole-string target arguments (commas, blanks) by flag and config file",
          "observed decision == exact case-sensitive membership and no bare skip attribute, for all target sets of size 0..3 over the name pool, all attribute permutations, four tag-name configurations; the binary given no target option removed nothing"),
  "C07": ("5 C07", "structural invariant monitor over tokenize() results (no reference tokenization needed); thorough tier adds a Miri leg",
          "every token list observed was a non-empty, contiguous, boundary-aligned partition whose byte and char spans agree, tags carry their delimiters, no adjacent text tokens; exhaustive over atom strings per delimiter pair up to the recorded bound"),
@@ -23,7 +23,7 @@ P = {
          "token spans equal the textbook scan on every string where the scan and the no-fallback automaton agree; where they differ the implementation equals the automaton model exactly (KNOWN-FINDING KF-C08); any third behaviour is a violation"),
  "C09": ("5 C09", "round-trip monitor: tags generated from the grammar vs. element_parser::parse; metamorphic opaque-value probes through clean (comment values and valued skip / unwrap-block flags)",
          "every generated well-formed tag parsed to exactly its name and attributes (exhaustive for <= 2 attributes over a small pool, random up to 4 attributes over the adversarial pool, 5 spellings); no quoted-value content changed a removal decision"),
- "C10": ("5 C10", "differential monitor: parser::parse tree (pairs, flattening, parent links) vs. explicit stack model",
+ "C10": ("5 C10", "differential monitor: parser::parse tree (pairs, flattening, parent links) vs. explicit stack model; end to end, the elements the remover evaluates (Decision hook events of a clean call) vs. the same model",
          "pairs, in-order flattening and parent attribution equal the stack rule for every token sequence up to the recorded length over 7 atoms (exhaustive) and random sequences up to 40 tokens, several delimiter pairs"),
  "C11": ("5 C11", "line-level reference monitor on block documents: surviving trimmed line sequence vs. input lines minus the four removed lines; verbatim test for too-short blocks",
          "for every generated unwrap layout (0..6 lines between the tags, odd wrappers, nested elements, any position) exactly the two tag lines and two wrapper lines disappeared and un-unwrappable blocks stayed verbatim"),
